@@ -792,5 +792,10 @@ def check(s):
     check_rescale(s, "C02.5")
     check_constructors(s, "C02.5")
     check_delegation(s, "C02.5", ["observation", "action_mask", "initial"])
+    # ---------------------------------------------------------------- C02.8 "sampled actions ... are accepted": a control step of a classic-control
+    # environment hands the solver exactly the configured solver / step-size controller / interval and nothing else - an extra limit
+    # (max_steps, a tighter tolerance, throw on event) makes a valid action raise for the configurations that need more solver work
+    from .C17 import check_integration
+    check_integration(s, "C02.8")
     for r_, n_ in (("C02.1", 14), ("C02.2", 80), ("C02.3", 300), ("C02.4", 20), ("C02.5", 60), ("C02.6", 20), ("C02.7", 17)):
         s.floor(r_, n_)
